@@ -67,3 +67,5 @@ func vValidKind(doc []byte, kind string) bool { panic("gosym intrinsic") } // va
 func vShare(v interface{}, name string) { panic("gosym intrinsic") } // everything reachable from v is shared between threads
 func vTraceBegin()                      { panic("gosym intrinsic") }
 func vTraceEnd(name string)             { panic("gosym intrinsic") }
+
+func vJDump(doc []byte, label string) { panic("gosym intrinsic") } // debugging: note with the abstract JSON value
